@@ -126,6 +126,22 @@ func (w *scriptWriter) Write(p []byte) (int, error) {
 	return n, err
 }
 
+// flushingWriter gives a scriptWriter a Flush method.
+type flushingWriter struct {
+	*scriptWriter
+	flushes int
+}
+
+func (w *flushingWriter) Flush() error { w.flushes++; return nil }
+
+// asWriter is the io.Writer handed to the Decoder for w.
+func (x *decExec) asWriter(w *scriptWriter) io.Writer {
+	if x.c.WriterFlush {
+		return &flushingWriter{scriptWriter: w}
+	}
+	return w
+}
+
 // DOp is one concrete decoder operation.
 type DOp struct {
 	Op    string   `json:"op"`
@@ -148,6 +164,10 @@ type DecCase struct {
 	Cfg     DCfg     `json:"cfg"`
 	Writer  []WEvent `json:"writer,omitempty"`
 	Ops     []DOp    `json:"ops"`
+	// WriterFlush (dec): the writer also has a Flush() error method, as
+	// buffered writers have; it does not remember errors of Write (its Flush
+	// returns nil), which the io.Writer contract does not ask for.
+	WriterFlush bool `json:"writerFlush,omitempty"`
 	// PreCap (dbuf): the caller hands in an array of this capacity in
 	// DecoderBuffer.Data before Init (the buffer makes use of it).
 	PreCap int64 `json:"preCap,omitempty"`
@@ -260,7 +280,7 @@ func newDecExec(c DecCase) (*decExec, error) {
 			err = x.buf.Init(cfg)
 		case "dec":
 			x.wr = &scriptWriter{events: append([]WEvent(nil), c.Writer...), lens: &x.callLens}
-			x.dec, err = lz.NewDecoder(x.wr, cfg)
+			x.dec, err = lz.NewDecoder(x.asWriter(x.wr), cfg)
 		default:
 			err = fmt.Errorf("unknown vehicle %q", c.Vehicle)
 		}
@@ -976,7 +996,7 @@ func (x *decExec) doReset() {
 	old := x.wr
 	nw := &scriptWriter{events: old.events, lens: &x.callLens}
 	x.faultsTotal += old.faults
-	if x.guard("Decoder.Reset", func() { x.dec.Reset(nw) }) {
+	if x.guard("Decoder.Reset", func() { x.dec.Reset(x.asWriter(nw)) }) {
 		return
 	}
 	x.wr = nw
@@ -997,7 +1017,7 @@ func (x *decExec) doReinit(op DOp) {
 		nw := &scriptWriter{events: old.events, lens: &x.callLens}
 		x.faultsTotal += old.faults
 		var err error
-		if x.guard("Decoder.Init", func() { err = x.dec.Init(nw, lcfg) }) {
+		if x.guard("Decoder.Init", func() { err = x.dec.Init(x.asWriter(nw), lcfg) }) {
 			return
 		}
 		if err != nil {
